@@ -223,6 +223,16 @@ class Rig:
             return None
         return act
 
+    def periodic_action(self, i: int):
+        """the action of schedule_periodic: every invocation is one run (start .. end) of item i"""
+        def act(state=None):
+            self.log(e="start", item=i, s=self.sched_of(i))
+            for op in self.bodies.get(str(i), ()):
+                self.op(op)
+            self.log(e="end", item=i, s=self.sched_of(i))
+            return (state or 0) + 1
+        return act
+
     def op(self, op: Sequence[Any]) -> None:
         from datetime import timedelta
         from reactivex.internal.exceptions import DisposedException
@@ -275,6 +285,8 @@ class Rig:
                 h = S.schedule_relative(float(d), self.action(i))
             elif k == "reltd":
                 h = S.schedule_relative(timedelta(seconds=d), self.action(i))
+            elif k == "per":
+                h = S.schedule_periodic(float(d), self.periodic_action(i), 0)
             elif k == "abs":
                 h = S.schedule_absolute(shims.EPOCH + timedelta(seconds=d), self.action(i))
             else:
@@ -393,6 +405,8 @@ def el_scenarios(tier: str) -> List[Dict[str, Any]]:
         #    (Commit lies after the previous action ended - a cancellation test hoisted to collection time is caught here)
         dict(name="cancel-while-busy", threads=[[["imm", 1], ["imm", 2], ["rel", 3, 1]], [["sleep", 1], ["cancel", 2], ["cancel", 3]]],
              bodies={"1": [["sleep", 2]]}, horizon=4),
+        # K  equal due times: cancelling one of several items due at the same instant removes exactly that one
+        dict(name="equal-due-cancel", threads=[[["rel", 1, 2], ["rel", 2, 2], ["abs", 3, 2]], [["sleep", 1], ["cancel", 2], ["cancel", 3]]], horizon=4),
         # I  cancel from the other thread (prologue scheduled the item)
         dict(name="cross-cancel", pro=[["rel", 1, 2], ["imm", 2]], threads=[[["cancel", 1], ["imm", 3]], [["cancel", 2], ["reltd", 4, 2]]], horizon=5),
     ]
@@ -486,8 +500,15 @@ def timer_scenarios(tier: str) -> List[Dict[str, Any]]:
         dict(name="cross-cancel", pro=[["rel", 1, 2], ["abs", 2, 1]], threads=[[["cancel", 1]], [["sleep", 1], ["cancel", 2]]], horizon=4),
         dict(name="recursive", threads=[[["rel", 1, 1]], [["sleep", 1], ["cancel", 3]]], bodies={"1": [["rel", 3, 1], ["abs", 4, 1]]}, horizon=4),
     ]
+    # equal due times: the cancelled one (and only it) must not run, whichever position it has among its equals
+    base += [
+        dict(name="equal-due-cancel-last", threads=[[["rel", 1, 2], ["rel", 2, 2], ["rel", 3, 2]], [["sleep", 1], ["cancel", 3]]], horizon=4),
+        dict(name="equal-due-cancel-middle", threads=[[["abs", 1, 2], ["rel", 2, 2], ["abs", 3, 2]], [["sleep", 1], ["cancel", 2]]], horizon=4),
+    ]
     if tier != "quick":
         base += [
+            dict(name="equal-due-cancel-first", threads=[[["rel", 1, 2], ["rel", 2, 2]], [["sleep", 1], ["cancel", 1], ["rel", 3, 1]]], horizon=4),
+            dict(name="equal-due-cancel-two", threads=[[["rel", 1, 3], ["abs", 2, 3], ["rel", 3, 3]], [["sleep", 1], ["cancel", 2], ["sleep", 1], ["cancel", 3]]], horizon=5),
             dict(name="three", threads=[[["rel", 1, 1], ["cancel", 1]], [["abs", 2, 2], ["sleep", 2], ["cancel", 2]], [["imm", 3], ["reltd", 4, 3]]], horizon=5),
             dict(name="late-cancel", threads=[[["rel", 1, 1], ["sleep", 2], ["cancel", 1]], [["rel", 2, 2], ["sleep", 1], ["cancel", 2]]], horizon=4),
             dict(name="busy", threads=[[["imm", 1], ["rel", 2, 1]], [["sleep", 1], ["rel", 3, 1], ["cancel", 2]]], bodies={"1": [["sleep", 2]]}, horizon=5),
@@ -495,6 +516,21 @@ def timer_scenarios(tier: str) -> List[Dict[str, Any]]:
     variants = [dict(kind="timeout"), dict(kind="newthread"), dict(kind="threadpool"), dict(kind="threadpool", workers=1),
                 dict(kind="eventloop", exit=False), dict(kind="eventloop", exit=True)]
     out = [dict(b, **v) for b in base for v in variants]
+    # schedule_periodic: a run is due one period after the START of the previous one; after the dispose returned no run starts.
+    # The overrun variants make a run last longer than the period and dispose during it.
+    periodic = [
+        dict(name="periodic-overrun-dispose", threads=[[["per", 1, 1], ["sleep", 2], ["cancel", 1]]], bodies={"1": [["sleep", 2]]}, horizon=7),
+        dict(name="periodic-dispose-between", threads=[[["per", 1, 2], ["sleep", 3], ["cancel", 1]], [["rel", 2, 1]]], horizon=7),
+        dict(name="periodic-dispose-at-tick", threads=[[["per", 1, 1], ["sleep", 2], ["cancel", 1]]], horizon=5),
+    ]
+    if tier != "quick":
+        periodic += [
+            dict(name="periodic-overrun-late-dispose", threads=[[["per", 1, 1], ["sleep", 4.5], ["cancel", 1]]], bodies={"1": [["sleep", 2]]}, horizon=9),
+            dict(name="periodic-two", threads=[[["per", 1, 1], ["sleep", 2.5], ["cancel", 1]], [["per", 2, 2], ["sleep", 3], ["cancel", 2]]],
+                 bodies={"2": [["sleep", 1]]}, horizon=8),
+        ]
+    pvariants = [dict(kind="newthread"), dict(kind="threadpool"), dict(kind="eventloop", exit=False), dict(kind="timeout")]
+    out += [dict(b, **v) for b in periodic for v in pvariants]
     # two-clocks share: timed waits of the event-loop based schedulers expire 0.25 s early while scheduler.now reads the controlled clock
     early_for = {"cancel-before-due", "abs-past-future", "recursive", "zero-delay", "late-cancel", "busy"}
     early_variants = [dict(kind="eventloop", exit=False), dict(kind="eventloop", exit=True), dict(kind="newthread"), dict(kind="threadpool")]
@@ -513,10 +549,10 @@ def label_rejection(tr: List[Dict[str, Any]], upto: int) -> Dict[str, Any]:
         lab["failure"] = e
     elif e == "start":
         x = nxt["item"]
-        call = next((ev for ev in tr[:upto] if ev["e"] == "call" and ev.get("item") == x and ev["op"] in ("imm", "rel", "abs")), None)
+        call = next((ev for ev in tr[:upto] if ev["e"] == "call" and ev.get("item") == x and ev["op"] in ("imm", "rel", "abs", "per")), None)
         due = None
         if call is not None:
-            due = call["t"] if call["op"] == "imm" else (call["t"] + max(0, call["d"]) if call["op"] == "rel" else call["d"])
+            due = call["t"] if call["op"] == "imm" else (call["t"] + max(0, call["d"]) if call["op"] in ("rel", "per") else call["d"])
         open_acts = set()
         for ev in tr[:upto]:
             if ev["e"] == "start":
